@@ -30,3 +30,14 @@ Theorem C12_cob_protocol : forall h s ops h' b', valid_slice h s ->
   arr_of h' (sl_arr s) = arr_of h (sl_arr s).
 Proof. exact cob_protocol. Qed.
 Print Assumptions C12_cob_protocol.
+
+(* the frame: the statements of goldmark that can store through a []byte at all (regenerated on
+   every run with go/types from the current source, gen/WriteSites.v) are all on the reviewed
+   list of model/WriteSitesReviewed.v, where each is shown to write into a slice made in the
+   same function, or is one of the two mechanisms modelled above *)
+Require GM.gen.WriteSites GM.model.WriteSitesReviewed GM.proofs.MiscProofs.
+Import GM.proofs.MiscProofs.
+Theorem C12_write_sites_reviewed :
+  WriteSitesReviewed.sites_reviewed WriteSites.write_sites WriteSites.write_scan_problems = true.
+Proof. exact write_sites_all_reviewed. Qed.
+Print Assumptions C12_write_sites_reviewed.
